@@ -45,6 +45,7 @@ func runC16(c *core.Ctx) {
 	c16Render(c, pkg)
 	c16ProbeRules(c, pkg)
 	c16TickPhase(c, pkg)
+	c16TickerWiring(c, pkg)
 	c16Ticker(c, pkg)
 	c16DBRPs(c, pkg)
 }
